@@ -193,6 +193,9 @@ def gen_f1(rng, force=None):
             tail["code"] = "FIN"
     elif tail_kind == "finishcode":
         tail["code"] = "FIN"
+    if tail_kind in ("finish", "finishcode") and ycodes and items[-1]["t"] != "yield" and r.random() < 0.45:
+        # a finish that directly follows a yield (the finish runs on the call after the yield returned)
+        items.append({"t": "yield", "code": r.choice(ycodes)})
     spec["items"] = items
     spec["tail"] = tail
     spec["hooks"] = hooks
@@ -1242,7 +1245,7 @@ def check_canon(fam, data, canon, flags):
     return []
 
 
-FAMILY_TIER = {"quick": 260, "thorough": 4000}
+FAMILY_TIER = {"quick": 360, "thorough": 4000}
 FAMILY_SCALE = {"C04": 0.25, "C02": 0.4}
 
 
